@@ -366,6 +366,10 @@ def run(ctx, which):
 
     bad_arity_stream(ctx, world)
     resolution_across_edits(ctx, world)
+    if which == "C07":
+        table_cycle_stream(ctx)
+    if which == "C08":
+        retag_probe(ctx)
 
     # 6. glue: string length and float32 rounding against Lean's own
     lines, meta = [], []
@@ -401,6 +405,120 @@ def run(ctx, which):
                                       % (b, pb, lb))
     ctx.extra["node_table"] = "%d attached, %d detached" % (
         len(world.attached), len(world.detached))
+
+
+def table_cycle_stream(ctx):
+    """C07's second observation point: `AuxData.data` after a save / load
+    cycle. Values go into AuxData tables of an IR (IR and module level),
+    the IR is saved and loaded, the decoded values are compared; then the
+    SAME IR's values are edited in place through the references the caller
+    holds and the cycle is repeated (what is encoded must be the value as it
+    is when save is called)."""
+    import gtirb
+    import msg_stream as ms
+    rng = ctx.rng
+    for rnd in range(ctx.scale(25, 400)):
+        ir = gtirb.IR()
+        m = gtirb.Module(name="m", ir=ir)
+        px = gtirb.ProxyBlock(module=m)
+        w = ms.NodeWorld(gtirb, ir)
+        w.attached, w.detached = w.nodes, []
+        w.foreign_uuids = [uuidlib.UUID(int=rng.getrandbits(128))
+                           for _ in range(3)]
+        tabs = {}
+        for i in range(rng.randrange(1, 5)):
+            t = cc.gen_type(rng, rng.randrange(0, 4))
+            while hashed_unhashable(t):     # known finding K3: see stream 5
+                t = cc.gen_type(rng, rng.randrange(0, 3))
+            v = cc.gen_value(rng, w, t, True)
+            cont = rng.choice([ir, m])
+            cont.aux_data["t%d" % i] = gtirb.AuxData(v, cc.render(t))
+            tabs[(cont is ir, "t%d" % i)] = (t, v)
+        for cycle in (1, 2, 3):
+            try:
+                ir2 = ms.load(gtirb, ms.save(ir))
+            except (Exception, core.ImplTimeout) as e:   # noqa
+                ctx.report({"kind": "table-cycle-raises",
+                            "exception": type(e).__name__},
+                           {"types": [cc.render(t) for t, _ in tabs.values()]},
+                           "save / load of an IR with AuxData tables raised "
+                           "%s: %s" % (type(e).__name__, str(e)[:80]))
+                return
+            w2 = ms.NodeWorld(gtirb, ir2)
+            for (at_ir, key), (t, v) in tabs.items():
+                cont2 = ir2 if at_ir else ir2.modules[0]
+                try:
+                    got = cc.nan_normalise(cc.canon(cc.to_tokens(
+                        w2, t, cont2.aux_data[key].data)))
+                    want = cc.nan_normalise(cc.canon(cc.to_tokens(w, t, v)))
+                except (Exception, core.ImplTimeout) as e:   # noqa
+                    got, want = "raised:" + type(e).__name__, "value"
+                ctx.evaluations += 1
+                if got != want:
+                    ctx.report({"kind": "table-cycle-differs", "cycle": cycle},
+                               {"type": cc.render(t), "cycle": cycle},
+                               "AuxData table of type %s: .data after save / "
+                               "load cycle %d is not the value the table "
+                               "held when it was saved" % (cc.render(t),
+                                                           cycle))
+                    return
+            ctx.count("table-cycle:%d" % cycle)
+            ctx.nontriv(("table-cycle", cycle, len(tabs)))
+            # edit in place through the held references
+            for (at_ir, key), (t, v) in tabs.items():
+                if isinstance(v, list) and v:
+                    v.append(v[0])
+                elif isinstance(v, dict) and v:
+                    v.pop(next(iter(v)))
+                elif isinstance(v, set) and v:
+                    v.pop()
+
+
+def retag_probe(ctx):
+    """bytes written under a type name are that type's encoding of the value
+    also when the name of a loaded table was changed before anything read it
+    (the codec's own bytes are compared with the format by the streams above;
+    here: what `save` puts into the file)"""
+    import io
+    import gtirb
+    import props.C14 as c14
+    rng = ctx.rng
+    pairs = [("sequence<uint32_t>", "sequence<uint64_t>", [1, 2, 2**32 - 1]),
+             ("mapping<string,uint16_t>", "mapping<string,uint64_t>",
+              {"a": 1, "é": 65535}),
+             ("uint8_t", "int64_t", 200), ("int16_t", "int32_t", -2),
+             ("tuple<uint8_t,uint16_t>", "tuple<uint64_t,uint16_t>", (1, 2)),
+             ("set<uint16_t>", "set<uint32_t>", {7})]
+    for old_t, new_t, v in pairs:
+        ir = gtirb.IR()
+        m = gtirb.Module(name="m", ir=ir)
+        level = rng.choice(["ir", "module"])
+        (ir if level == "ir" else m).aux_data["t"] = gtirb.AuxData(v, old_t)
+        buf = io.BytesIO()
+        ir.save_protobuf_file(buf)
+        try:
+            with core.time_limit(20):
+                ir2 = gtirb.IR.load_protobuf_file(io.BytesIO(buf.getvalue()))
+                holder = ir2 if level == "ir" else ir2.modules[0]
+                holder.aux_data["t"].type_name = new_t     # nothing read
+                out = io.BytesIO()
+                ir2.save_protobuf_file(out)
+            tn, data = c14.parse_tables(gtirb, out.getvalue(), level)["t"]
+            want = cc.impl_encode(gtirb, new_t, v)
+            got = (tn, data)
+        except (Exception, core.ImplTimeout) as e:   # noqa
+            got, want = ("raised", type(e).__name__), None
+        ctx.evaluations += 1
+        ctx.count("retag-probe")
+        ctx.nontriv(("retag", old_t))
+        if got != (new_t, want):
+            ctx.report({"kind": "retagged-bytes", "from": old_t, "to": new_t},
+                       {"from": old_t, "to": new_t, "got": repr(got)[:200]},
+                       "a loaded table re-typed from %s to %s (never read) "
+                       "was written as %r; the %s encoding of its value is "
+                       "%s" % (old_t, new_t, got, new_t,
+                               None if want is None else want.hex()))
+            return
 
 
 def unhashable_type(t):
